@@ -8,3 +8,12 @@ See Also:
 from .server import *
 
 from .._generated.pub import *
+
+# The star imports above also copy same-named submodule attributes of other packages
+# (e.g. the generated twins); make sure this package's own subpackages are what the
+# attributes resolve to.
+import sys as _sys
+
+server = _sys.modules[__name__ + '.server']
+
+del _sys
